@@ -7,6 +7,9 @@ import (
 	"flag"
 	"fmt"
 	"os"
+	"os/exec"
+	"path/filepath"
+	"runtime"
 	"runtime/debug"
 	"sort"
 
@@ -133,6 +136,47 @@ func runOne(prop, tier string, noEv bool, goarch, goos string, run rules.RuleFun
 	run(p, rep)
 	if tier == "thorough" {
 		rules.Thorough(prop, p, rep)
+		// the same rules on the other build configurations (build-tagged
+		// files, 32-bit int ranges); explicit -goarch/-goos disables this.
+		if goarch == "" && goos == "" {
+			for _, c := range [][2]string{{"linux", "386"}, {"darwin", "amd64"}, {"windows", "amd64"}} {
+				p2, err := core.Load(core.LoadConfig{GOOS: c[0], GOARCH: c[1]})
+				if err != nil {
+					rep.Errorf("load %s/%s: %v", c[0], c[1], err)
+					continue
+				}
+				rep2 := core.NewReport(prop, tier)
+				run(p2, rep2)
+				rules.Thorough(prop, p2, rep2)
+				rep.MergeConfig(c[0]+"/"+c[1], rep2)
+				p2 = nil
+				runtime.GC()
+			}
+		}
+		if !noEv && os.Getenv("TCHK_NO_SELFTEST") == "" {
+			selfTest(prop, rep)
+		}
 	}
 	return rep.Finish(p, noEv)
+}
+
+// selfTest runs this property's seeded-fault table (sa/mutants) against a
+// scratch copy of the current tree and records, in the evidence only, how
+// many of the faults the rules detect. It never changes the verdict: a fault
+// that no longer applies to an edited tree is skipped.
+func selfTest(prop string, rep *core.Report) {
+	if !rep.Clean() {
+		rep.Extra["self_test"] = "skipped: the tree has undischarged obligations"
+		return
+	}
+	tool := filepath.Join(core.VerifDir(), "tools", "mutants.py")
+	cmd := exec.Command("python3", tool, "-p", prop, "-j", "8", "--json")
+	cmd.Env = append(os.Environ(), "TCHK_NO_SELFTEST=1")
+	out, err := cmd.Output()
+	var res map[string]interface{}
+	if e := json.Unmarshal(out, &res); e != nil {
+		rep.Extra["self_test"] = fmt.Sprintf("not available: %v %v", err, e)
+		return
+	}
+	rep.Extra["self_test"] = res
 }
